@@ -7,6 +7,7 @@ mod props_lang;
 mod props_links;
 mod props_partition;
 mod props_query;
+mod props_rules;
 mod props_stack;
 mod space;
 
@@ -31,6 +32,7 @@ fn replay(prop: &str, file: &str) -> i32 {
             "exhaustive" => props_query::replay_exhaustive(&case),
             "family" => props_algebra::replay_family(&case),
             "lang" => props_lang::replay_lang(&case),
+            "rules" => props_rules::replay_rules(&case),
             "walk" => props_fs::replay_walk(&case, prop),
             "depthwalk" => props_links::replay_depthwalk(&case),
             "faultwalk" => props_links::replay_faultwalk(&case),
@@ -137,6 +139,7 @@ fn main() {
         "C20-worker" => props_links::c20_worker(tier),
         "C13" => props_stack::c13_c16(tier, "C13"),
         "C16" => props_stack::c13_c16(tier, "C16"),
+        "C06" => props_rules::c06(tier),
         "C07" => props_algebra::c07(tier),
         "C08" => props_partition::c08(tier),
         "C18" => props_partition::c18(tier),
